@@ -19,7 +19,7 @@ type kase struct {
 
 var (
 	presentKinds  = []string{"garbage", "pdf", "empty", "readonly", "symlink", "dir"}
-	presentCommon = []string{"garbage", "pdf"}                     // a regular, non-empty file
+	presentCommon = []string{"garbage", "pdf"}                      // a regular, non-empty file
 	presentOdd    = []string{"empty", "readonly", "symlink", "dir"} // the special ones
 	forceCombos   = [][2]string{{"garbage", "first"}, {"garbage", "last"}, {"pdf", "first"}, {"pdf", "last"}}
 	dirVariants   = []string{"file", "hidden", "subdir", "rerun"}
